@@ -132,6 +132,14 @@ func rsaBlind(seed int64, kind int, n *big.Int, label string) []byte {
 		return []byte{3}
 	case 3:
 		return []byte{1, 0, 1}
+	case 6: // the value of kind 4, spelled with a leading zero byte in front of 256 bytes (257 bytes)
+		v := new(big.Int).SetBytes(mc.Fill(seed, fmt.Sprintf("c11-rb%d-%s", 4, label), 300))
+		v.Mod(v, n)
+		return append([]byte{0}, v.FillBytes(make([]byte, 256))...)
+	case 7:
+		return new(big.Int).Sub(n, big.NewInt(1)).Bytes()
+	case 8: // 2 spelled in 256 bytes
+		return big.NewInt(2).FillBytes(make([]byte, 256))
 	default:
 		v := new(big.Int).SetBytes(mc.Fill(seed, fmt.Sprintf("c11-rb%d-%s", kind, label), 300))
 		v.Mod(v, n)
@@ -139,7 +147,7 @@ func rsaBlind(seed int64, kind int, n *big.Int, label string) []byte {
 	}
 }
 
-var rsaBlindNames = []string{"1", "2", "3", "65537", "drbg-a mod N", "drbg-b mod N"}
+var rsaBlindNames = []string{"1", "2", "3", "65537", "drbg-a mod N", "drbg-b mod N", "drbg-a mod N with a leading zero byte (257 bytes)", "N-1", "2 in 256 bytes"}
 
 // flow abstracts one (type, key, input) over the blind index.
 type made struct {
@@ -454,6 +462,13 @@ func runPair(p P) (outcome string, v *mc.Viol) {
 	same := "distinct"
 	if bytes.Equal(a1.req, b.req) {
 		same = "equal"
+	}
+	if p.T == 2 && p.I != p.J {
+		n := px.RSAKeys()[p.Key].N
+		lbl := fmt.Sprintf("k%d", p.Key)
+		if new(big.Int).SetBytes(rsaBlind(p.Seed, p.I, n, lbl)).Cmp(new(big.Int).SetBytes(rsaBlind(p.Seed, p.J, n, lbl))) == 0 && same != "equal" {
+			return differ("request bytes depend on how the blind is spelled (same integer, leading zero bytes)", b.req, a1.req)
+		}
 	}
 	if p.I == p.J {
 		return "same blind twice: requests " + same + ", tokens identical", nil
@@ -855,7 +870,7 @@ func main() {
 	oprfKeys := mc.Pick(r, []int{0, 3, 5}, []int{0, 1, 2, 3, 4, 5})
 	rsaKeys := mc.Pick(r, []int{0, 1}, []int{0, 1, 2, 3})
 	nBlinds := 7                  // group scalars: 1, 2, N-1, leading zero byte, DRBG (+ DRBG, 2^k)
-	nRSABlinds := 6               // 1, 2, 3, 65537, two DRBG values mod N
+	nRSABlinds := 9               // 1, 2, 3, 65537, two DRBG values mod N, respellings with leading zero bytes, N-1
 	inputs := mc.Pick(r, 2, 3)    // types 1, 5
 	rsaInputs := mc.Pick(r, 1, 2) // type 2
 	batches := mc.Pick(r, []int{1, 2, 3}, []int{1, 2, 3, 4})
